@@ -534,9 +534,10 @@ pub const RANGE_RELS: &[RangeRel] = &[
     // x86-64 psABI table 4.9 ("word8/16/32/64" fields). Where the psABI only says the value must
     // fit, GNU ld (complain_overflow_*) and lld (checkInt/checkUInt/checkIntUInt) define what
     // "both accept/reject" means:
-    //   R_X86_64_8/16: ld bitfield, lld checkIntUInt       -> accept [-2^(n-1), 2^n)
+    //   R_X86_64_8/16: ld bitfield [-2^n, 2^n), lld checkIntUInt [-2^(n-1), 2^n)
+    //                                       -> accept [-2^(n-1), 2^n), silent down to -2^n
     //   R_X86_64_PC8:  both signed
-    //   R_X86_64_PC16: ld bitfield, lld signed              -> accept signed, silent up to 2^16
+    //   R_X86_64_PC16: ld bitfield, lld signed -> accept signed, silent in [-2^16,-2^15) and [2^15,2^16)
     //   R_X86_64_32:   both unsigned; R_X86_64_32S, PC32, PLT32, GOTPCREL*, TLS 32-bit: signed
     rr(X, 1, "R_X86_64_64", 8, ANY_LO, p2(64), ANY_LO, p2(64)),
     rr(X, 2, "R_X86_64_PC32", 4, -p2(31), p2(31), -p2(31), p2(31)),
@@ -544,9 +545,9 @@ pub const RANGE_RELS: &[RangeRel] = &[
     rr(X, 9, "R_X86_64_GOTPCREL", 4, -p2(31), p2(31), -p2(31), p2(31)),
     rr(X, 10, "R_X86_64_32", 4, 0, p2(32), 0, p2(32)),
     rr(X, 11, "R_X86_64_32S", 4, -p2(31), p2(31), -p2(31), p2(31)),
-    rr(X, 12, "R_X86_64_16", 2, -p2(15), p2(16), -p2(15), p2(16)),
-    rr(X, 13, "R_X86_64_PC16", 2, -p2(15), p2(15), -p2(15), p2(16)),
-    rr(X, 14, "R_X86_64_8", 1, -p2(7), p2(8), -p2(7), p2(8)),
+    rr(X, 12, "R_X86_64_16", 2, -p2(15), p2(16), -p2(16), p2(16)),
+    rr(X, 13, "R_X86_64_PC16", 2, -p2(15), p2(15), -p2(16), p2(16)),
+    rr(X, 14, "R_X86_64_8", 1, -p2(7), p2(8), -p2(8), p2(8)),
     rr(X, 15, "R_X86_64_PC8", 1, -p2(7), p2(7), -p2(7), p2(7)),
     rr(X, 17, "R_X86_64_DTPOFF64", 8, ANY_LO, p2(64), ANY_LO, p2(64)),
     rr(X, 19, "R_X86_64_TLSGD", 4, -p2(31), p2(31), -p2(31), p2(31)),
